@@ -1,6 +1,7 @@
 //! Correspondence harness: runs the real `epserde` crate on the operations of the line protocol
 //! and prints canonical answers, which `bin/check` compares with the answers of the Lean model.
 
+#![recursion_limit = "1024"]
 pub mod term;
 pub mod show;
 pub mod alloc;
